@@ -615,7 +615,11 @@ func (c *Ctx) RuleB(rule string, reach map[*ssa.Function]bool, chain func(*ssa.F
 			case classes != nil && !classes[s.class]:
 				c.R.Infof(rule, name(owner), construct, c.IPos(s.instr), "site of another property's class: "+detail)
 			default:
-				c.R.Violf(rule, name(owner), construct, c.IPos(s.instr), what, detail)
+				// a must-style call that panics on the data it was fed sits in a function
+				// reachable from the entry points: how the surrounding code is written
+				// does not change that
+				hard := s.term == "Builder.BytesOrPanic" && reach != nil && reach[s.fn]
+				c.R.Add(report.Obligation{Rule: rule, Key: rule + "@" + name(owner) + ":" + construct, Func: name(owner), Pos: c.IPos(s.instr), What: what, Status: report.Violation, Detail: detail, Hard: hard})
 			}
 		}
 	}
